@@ -1,5 +1,5 @@
 """C17 -- port semantics: explicit vs default, zero vs absent."""
-from common import Family, call, all_of, any_of, sym_eq
+from common import Family, call, outcome, all_of, any_of, sym_eq
 import urlkit as U
 
 PROPERTY = "C17"
@@ -8,7 +8,7 @@ BUDGET = {"quick": 240, "thorough": 2400}
 BOUNDS = {"quick": "constructor: port text of <= 5 free code points x schemes {http, https, ws, wss, ftp, x, ''} x hosts {reg-name, IPv6, IPv4}; "
                    "build(port=) and with_port() with a symbolic integer in [-70000, 70000]",
           "thorough": "port text of <= 6 free code points; same integer range; more base URLs"}
-ASSUMPTIONS = ["port texts that only Python's int() accepts (sign, underscore, whitespace, non-ASCII digits) are cut and counted",
+ASSUMPTIONS = ["port text reaching int() without being ASCII digits is reported (int()'s own leniency - sign, underscore, whitespace - is not modelled further)",
                "holes of the port text are not URL structure characters (/ ? # @ [ ] : TAB CR LF); those shapes belong to C07",
                "for the build() route explicit_port is not asserted when the port equals the scheme default (build drops it; the property defines "
                "explicit_port for a port written in a URL)",
@@ -55,8 +55,13 @@ def h_ctor(ctx, scheme, host, k):
         ctx.assume(d[0] not in " " if not scheme and False else True)
     text = (scheme + "://" if scheme else "//") + host + ":" + d + "/"
     r = call(P.URL, text)
-    ctx.observe("URL", r[1] if r[0] == "exc" else "ok")
+    ctx.observe("URL", outcome(r))
     digits = all_of([c in "0123456789" for c in d]) if k else True
+    if r[0] == "excluded":
+        if r[1].startswith("int(text)"):
+            # the port text reached int() although it is not made of ASCII digits (that is where the model stops)
+            ctx.check("non-numeric-port-must-be-refused", digits)
+        return
     if r[0] == "exc":
         ctx.check("only-ValueError", r[1] == "ValueError", r[1])
         # a refusal is justified only by a non-numeric or out-of-range port text
@@ -82,7 +87,7 @@ def h_build(ctx, scheme, host, hostsub):
     P = ctx.P
     p = ctx.int("port", -70000, 70000)
     r = call(lambda: P.URL.build(scheme=scheme, host=host, port=p, path="/"))
-    ctx.observe("build", r[1] if r[0] == "exc" else "ok")
+    ctx.observe("build", outcome(r))
     inrange = all_of([p >= 0, p <= 65535])
     if r[0] == "exc":
         ctx.check("only-ValueError", r[1] == "ValueError", r[1])
@@ -108,7 +113,7 @@ def h_with_port(ctx, base, scheme, hostsub, userinfo):
     p = ctx.int("port", -70000, 70000)
     b = P.URL(base)
     r = call(b.with_port, p)
-    ctx.observe("with_port", r[1] if r[0] == "exc" else "ok")
+    ctx.observe("with_port", outcome(r))
     inrange = all_of([p >= 0, p <= 65535])
     if r[0] == "exc":
         ctx.check("only-ValueError", r[1] == "ValueError", r[1])
